@@ -94,11 +94,48 @@ def cli_obligations(rep):
                       bool(reads) and bool(wopen) and max(reads) < min(wopen), {'reads': reads, 'write_opens': wopen})
 
 
+def cli_option_flow(rep):
+    """every formatting flag the argument parser defines reaches format(): the expression that builds the options handed
+    to validate_options (read from the real source of cli.main) is evaluated on the namespace the real parser produces,
+    and must contain every destination of the parser's "Formatting Options" group with the parsed value"""
+    from pyvc.core import import_repo
+    import_repo()
+    import sqlparse.cli as cli
+    q = 'sqlparse.cli.main'
+    node = source().get(q)
+    if node is None:
+        return
+    val = [c for c in ast.walk(node) if isinstance(c, ast.Call) and 'validate_options' in ast.unparse(c.func)]
+    argname = ast.unparse(val[0].args[0]) if val and val[0].args else None
+    assigns = [n for n in ast.walk(node) if isinstance(n, ast.Assign) and len(n.targets) == 1
+               and ast.unparse(n.targets[0]) == argname and 'validate_options' not in ast.unparse(n.value)]
+    ok, detail = False, {}
+    try:
+        parser = cli.create_parser()
+        groups = [g for g in parser._action_groups if 'format' in (g.title or '').lower()]
+        dests = sorted({a.dest for g in groups for a in g._group_actions})
+        ns = parser.parse_args(['input.sql'])
+        expr = assigns[-1].value if assigns else None
+        env = dict(vars(cli))
+        env['args'] = ns
+        built = eval(compile(ast.Expression(expr), '<cli.main>', 'eval'), env) if expr is not None else None
+        missing = [d for d in dests if not (isinstance(built, dict) and d in built and built[d] == getattr(ns, d))]
+        ok = bool(dests) and isinstance(built, dict) and not missing
+        detail = {'formatting destinations': dests, 'missing from the options handed to validate_options': missing,
+                  'expression': ast.unparse(expr) if expr is not None else None}
+    except Exception as e:      # noqa  (the shape of main changed: not decidable this way)
+        common.structural(rep, 'C19/%s/every formatting flag of the parser reaches validate_options and format' % q, q,
+                          False, {'reason': '%s: %s' % (type(e).__name__, e)}, undecided_if_false=True)
+        return
+    common.structural(rep, 'C19/%s/every formatting flag of the parser reaches validate_options and format' % q, q, ok, detail)
+
+
 def run(rep):
     common.verify_functions(rep, [(GT, 'text is str'), (GT, 'bytes with encoding'), (GT, 'bytes without encoding'),
                                   (GT, 'text stream'), (GT, 'other input')])
     dataflow_obligations(rep)
     cli_obligations(rep)
+    cli_option_flow(rep)
     rep.functions += ['sqlparse.parse', 'sqlparse.parsestream', 'sqlparse.split', 'sqlparse.format', 'sqlparse.cli.main']
     common.run_bounded(rep, 'C19', rep.tier, rep.seed, budget_quick=40.0)
     rep.assumptions += ['bytes.decode(codec) is an uninterpreted partial function of (bytes, codec name); Latin-1 '
